@@ -368,7 +368,8 @@ func c12ApplyVariant(data []byte, variant string, seed uint64) []byte {
 		for _, e := range es {
 			out = append(out, e)
 			if strings.HasSuffix(e.name, "sheet1.xml") {
-				out = append(out, c12Raw{name: strings.ReplaceAll(e.name, "/", "\\"), content: e.content})
+				// the second copy differs in its first cell value and is one byte longer
+				out = append(out, c12Raw{name: strings.ReplaceAll(e.name, "/", "\\"), content: bytes.Replace(e.content, []byte("<v>"), []byte("<v>9"), 1)})
 			}
 		}
 		es = out
@@ -873,7 +874,7 @@ func c12Observe(f *xl.File) string {
 		n := 0
 		for ri, row := range raw {
 			for ci := range row {
-				if n > 400 {
+				if n > 150 {
 					break
 				}
 				n++
@@ -1204,6 +1205,12 @@ func c12Limits(rng *Rng, bk *c12Book, n int) [][2]int64 {
 	for _, p := range bk.prefix {
 		ss = append(ss, p-1, p)
 	}
+	if strings.HasSuffix(bk.id, ":dup") {
+		// the limit that keeps the first copy in memory and spills the second
+		for _, s := range bk.sizes {
+			out = append(out, [2]int64{s, 0})
+		}
+	}
 	for i := 0; i < n; i++ {
 		x := xs[rng.Intn(len(xs))]
 		s := ss[rng.Intn(len(ss))]
@@ -1230,7 +1237,7 @@ func runC12(r *Run, rng *Rng, replay string) {
 		return
 	}
 	thorough := r.Tier == "thorough"
-	nGen, nLim, deepEvery := 36, 4, 3
+	nGen, nLim, deepEvery := 22, 4, 4
 	if thorough {
 		nGen, nLim, deepEvery = 300, 10, 2
 	}
